@@ -73,11 +73,13 @@ SETS = {
 }
 LAYOUTS = {'int': False, 'ext': True, 'adj': None}
 CONV = {}
+TY = {}
 VCONV = {}
 for (_sn, _s) in SETS.items():
     for (_ln, _ext) in LAYOUTS.items():
         ext = _s['adj'] if _ext is None else _ext
-        CONV[(_sn, _ln)] = make_converter(t.Annotated[t.Union[_s['variants']], Tagged(_s['tag'], external=ext)])
+        TY[(_sn, _ln)] = t.Annotated[t.Union[_s['variants']], Tagged(_s['tag'], external=ext)]
+        CONV[(_sn, _ln)] = make_converter(TY[(_sn, _ln)])
     for _v in _s['variants']:
         VCONV[_v] = make_converter(_v)
 # the same three layouts of set 's' followed by a (vacuous) condition: Annotated[Union[..], Tagged(..), Condition]
@@ -390,3 +392,84 @@ def body_duplicate_tags(which: int) -> int:
             raise
         return 13
     return 12
+
+
+
+# ------------------------------------------------------------------ a tagged union as a member of another type keeps its layout
+
+class WHold(PaneBase):
+    f_int: t.Optional[TY[('s', 'int')]] = None
+    f_ext: t.Optional[TY[('s', 'ext')]] = None
+    f_adj: t.Union[int, TY[('s', 'adj')], None] = None
+    l_ext: t.List[t.Optional[TY[('s', 'ext')]]] = field(default_factory=list)
+
+
+WRAPPED = {}
+for _ln in LAYOUTS:
+    _T = TY[('s', _ln)]
+    WRAPPED[_ln] = (make_converter(t.Optional[_T]), make_converter(t.Union[int, _T, str]), make_converter(t.Dict[str, t.Optional[_T]]),
+                    make_converter(t.Tuple[t.Optional[_T], int]))
+make_converter(WHold)
+
+
+def unwrap(wk, d):
+    if wk <= 1:
+        return True, d
+    elif wk == 2:
+        if not isinstance(d, dict) or list(d.keys()) != ['k']:
+            return False, None
+        return True, d['k']
+    else:
+        if not isinstance(d, (tuple, list)) or len(d) != 2:
+            return False, None
+        return True, d[0]
+
+
+@obligation(pre="0 <= ln <= 2 and 0 <= wk <= 4 and 1 <= tk <= 3", witnesses=(0,), timeout=200)
+def body_wrapped(ln: int, wk: int, tk: int, i: int) -> int:
+    """a tagged union inside Optional / Union / Dict / Tuple / a dataclass field is written in ITS layout, and what is written reads back"""
+    l = 'int' if ln == 0 else ('ext' if ln == 1 else 'adj')
+    cls = variant_of('s', tk)
+    x = cls.make_unchecked(a='q') if cls is VY else cls.make_unchecked(a=i)
+    try:
+        if wk == 4:
+            fname = 'f_int' if ln == 0 else ('f_ext' if ln == 1 else 'f_adj')
+            h = WHold.make_unchecked(**{fname: x}) if ln != 1 else WHold.make_unchecked(f_ext=x, l_ext=[x, None])
+            d = h.into_data()
+            inner = d[fname]
+            back = WHold.from_data(d)
+            got = getattr(back, fname)
+            if ln == 1:
+                if not shape_ok('s', l, cls, d['l_ext'][0]) or d['l_ext'][1] is not None or not eqv(back.l_ext, [x, None]):
+                    return 7
+        else:
+            conv = WRAPPED[l][0] if wk == 0 else (WRAPPED[l][1] if wk == 1 else (WRAPPED[l][2] if wk == 2 else WRAPPED[l][3]))
+            v = x if wk <= 1 else ({'k': x} if wk == 2 else (x, 1))
+            d = conv.into_data(v)
+            ok, inner = unwrap(wk, d)
+            if not ok:
+                return 7
+            back = conv.convert(d)
+            ok, got = unwrap(wk, back)
+            if not ok:
+                return 9
+    except ConvertError:
+        return 9
+    except Exception as e:
+        if crosshair_exc(e):
+            raise
+        return 10
+    if not shape_ok('s', l, cls, inner):
+        return 7
+    if type(got) is not cls or not eqv(got, x):
+        return 9
+    return 0
+
+
+for _ln in range(3):
+    for _wk in range(5):
+        for _tk in (1, 2, 3):
+            try:
+                body_wrapped(_ln, _wk, _tk, 1)
+            except Exception:
+                pass
